@@ -33,6 +33,9 @@ def shape_of(node: ast.AST) -> str:
             n.attr = "p"
             return n
 
+        def visit_JoinedStr(self, n: ast.JoinedStr) -> Any:
+            return ast.copy_location(ast.Name("FSTRING", ast.Load()), n)
+
         def visit_Constant(self, n: ast.Constant) -> Any:
             return ast.copy_location(ast.Name(type(n.value).__name__.upper(), ast.Load()), n)
 
